@@ -723,6 +723,12 @@ pub fn production_cli() -> PathBuf {
 
 /// Run the production CLI (built without the `verif` feature) in `cwd`. Returns (exit code or -signal, timed out)
 pub fn run_cli(cwd: &Path, args: &[&str], env: &[(&str, &str)], timeout_s: f64) -> (i32, bool) {
+    let env: Vec<(&str, &std::ffi::OsStr)> = env.iter().map(|(k, v)| (*k, std::ffi::OsStr::new(v))).collect();
+    run_cli_os(cwd, args, &env, timeout_s)
+}
+
+/// like run_cli, with environment values that need not be UTF-8
+pub fn run_cli_os(cwd: &Path, args: &[&str], env: &[(&str, &std::ffi::OsStr)], timeout_s: f64) -> (i32, bool) {
     use std::os::unix::process::ExitStatusExt;
     let mut c = std::process::Command::new(production_cli());
     c.current_dir(cwd)
